@@ -247,7 +247,7 @@ theorem inv_install (s : State) (loc : Loc) (e : Entry) (d : DocA) (cands : List
 theorem inv_loadCRL (s : State) (loc : Loc) (e : Entry) (cands : List Signer) (h : Inv s) :
     Inv (loadCRL s loc e cands).1 := by
   unfold loadCRL
-  by_cases hc : (e.closed && s.cfg.disk) = true
+  by_cases hc : loadRefused s e = true
   · simp only [hc, ↓reduceIte]; exact h
   · simp only [hc, Bool.false_eq_true, ↓reduceIte]
     cases hst : stage s.cfg.sigMode firstLoadHonoursMode (servedAt s loc) cands with
@@ -262,7 +262,7 @@ theorem inv_updateCrlEntry (s : State) (loc : Loc) (e : Entry) (nc : Option (Lis
     (he : StoreOK s loc e.store ∧ (e.loaded = true → e.store.doc.isSome = true)) :
     Inv (updateCrlEntry s loc e nc).1 := by
   unfold updateCrlEntry
-  by_cases hc : (e.closed && s.cfg.disk) = true
+  by_cases hc : refreshRefused s e = true
   · simp only [hc, ↓reduceIte]; exact h
   · simp only [hc, Bool.false_eq_true, ↓reduceIte]
     by_cases hl : (!e.store.hasLocs) = true
@@ -486,7 +486,7 @@ theorem inv_run (cfg : Cfg) (ops : List Op) : Inv (run cfg ops) := inv_foldl ops
 
 theorem loadCRL_cfg (s : State) (loc : Loc) (e : Entry) (cands : List Signer) : (loadCRL s loc e cands).1.cfg = s.cfg := by
   unfold loadCRL
-  by_cases hc : (e.closed && s.cfg.disk) = true
+  by_cases hc : loadRefused s e = true
   · simp only [hc, ↓reduceIte]
   · simp only [hc, Bool.false_eq_true, ↓reduceIte]
     cases hst : stage s.cfg.sigMode firstLoadHonoursMode (servedAt s loc) cands <;> rfl
@@ -494,7 +494,7 @@ theorem loadCRL_cfg (s : State) (loc : Loc) (e : Entry) (cands : List Signer) : 
 theorem updateCrlEntry_cfg (s : State) (loc : Loc) (e : Entry) (nc : Option (List Signer)) :
     (updateCrlEntry s loc e nc).1.cfg = s.cfg := by
   unfold updateCrlEntry
-  by_cases hc : (e.closed && s.cfg.disk) = true
+  by_cases hc : refreshRefused s e = true
   · simp only [hc, ↓reduceIte]
   · simp only [hc, Bool.false_eq_true, ↓reduceIte]
     by_cases hl : (!e.store.hasLocs) = true
